@@ -30,7 +30,8 @@ def generate(seed, tier, enlarged=False):
         n *= 3
     cases = []
     for i in range(n):
-        cases.append(sched.gen_case(rng, max_procs=4 if tier == 'quick' else 8, scripted=False))
+        cases.append(sched.gen_case(rng, max_procs=4 if tier == 'quick' else 8, scripted=False,
+                                    emit_steps=(1, 1, 1, 2, 1.5)))
     # updates in flight when their process is deleted: the live stream (structural histories inside a running
     # engine; sensors with timesteps 1-3 adding to a counter outside their compartment)
     from harness import live, struct
